@@ -226,6 +226,17 @@ func directedTTL(cfg StackCfg) []Scenario {
 				feed("t", get)))
 		}
 	}
+	// append / prepend re-store the value: "never expires" must stay never, and a date more than
+	// 30 days ahead must stay that date (neither survives being turned into a remaining lifetime)
+	for pi, pend := range []string{"append", "prepend"} {
+		for _, ttl := range []uint32{0, uint32(now) + 40*86400, thirtyDays, uint32(now) + thirtyDays + 3} {
+			out = append(out, mk(fmt.Sprintf("C09-dir-%s-keeps-%d", pend, ttl),
+				feed("b", Command{Kind: "set", Key: k, Flags: 5, Exptime: ttl, Data: []byte("value"), Opaque: 1}),
+				feed([]string{"b", "t"}[pi], Command{Kind: pend, Key: k, Data: []byte("xy"), Opaque: 3}),
+				feed("t", get),
+				feed("b", get)))
+		}
+	}
 	if cfg.Orca == "l1l2" {
 		// back-fill of items with various remaining lifetimes
 		for _, ttl := range []uint32{0, 50, thirtyDays, uint32(now) + thirtyDays - 5, uint32(now) + thirtyDays + 5000} {
